@@ -539,8 +539,8 @@ func LimitVersions(uui dvid.UUID, configFName string) error {
 			}
 		}
 	}
-	manager.repoMutex.Lock()
 	manager.idMutex.Lock()
+	manager.repoMutex.Lock()
 	var repo *repoT
 	for uuid, r := range manager.repos {
 		if _, found := okUUIDs[uuid]; found {
@@ -576,8 +576,8 @@ func LimitVersions(uui dvid.UUID, configFName string) error {
 			node.children = children
 		}
 	}
-	manager.idMutex.Unlock()
 	manager.repoMutex.Unlock()
+	manager.idMutex.Unlock()
 	return nil
 }
 
